@@ -12,8 +12,10 @@ fails.  The created namespaces take part in the finish-time validation.  So the 
 Errors by class: a rejected value is `Err.validation` (`ValueError` in the code); a name that does not resolve is
 `Err.valueError` (`ValueError` of `get_port`); walking *through* a leaf port is `Err.attributeError` (an `OutputPort`
 has no `get_port`) when segments remain and `Err.typeError` when the leaf is the last namespace segment (`port[name]`
-on an `OutputPort`); storing directly below an emitted value that is not a mapping is `Err.typeError` (item assignment), deeper below it
-`Err.attributeError` (`setdefault` on it).
+on an `OutputPort`); storing directly below an emitted value that is not a `dict` is `Err.typeError` (item assignment), deeper below it
+`Err.attributeError` (`setdefault` on it).  An emitted immutable mapping (`AttributesFrozendict`, `V.dict true _`) is such a value: it
+supports neither item assignment nor `setdefault`, wherever it sits (at the top of the outputs or inside an emitted plain dict) and
+whatever it contains — it is a leaf, as it is for the recursion of `validate_dynamic_ports`.
 -/
 namespace Ports
 
@@ -54,10 +56,14 @@ def store (outputs : Items) : List String → String → V → Except Err Items
           match store [] rest name v with
           | .ok sub => .ok (setKey s (.dict false sub) outputs)
           | .error e => .error e
-      | some (.dict fr sub) =>
+      | some (.dict false sub) =>                              -- a plain dict (created by `setdefault` or emitted): entered
           match store sub rest name v with
-          | .ok sub' => .ok (setKey s (.dict fr sub') outputs)
+          | .ok sub' => .ok (setKey s (.dict false sub') outputs)
           | .error e => .error e
+      | some (.dict true _) =>                                 -- an emitted immutable mapping: a value, not a place to store below
+          match rest with
+          | [] => .error .typeError                            -- `frozen['b'] = v`: no item assignment
+          | _ :: _ => .error .attributeError                   -- `frozen.setdefault('b', {})`: a `Mapping` has no `setdefault`
       | some (.atom _ _) =>
           match rest with
           | [] => .error .typeError                            -- `5['b'] = v`
